@@ -255,7 +255,7 @@ def check_relations(ctx, case, rng):
         compare("outgroup", c4, got if r["n"] <= 4 * MAX_SET else None, r["min"], superset_ok=num_cost(case["costs"])["floss"] == 0)
 
     # 5. scaling
-    k = rng.choice([2, 3, 7])
+    k = rng.choice([2, 3, 7, 7, 10**6, 2**64 + 1, 3 * 10**30])  # also factors that push every total past 2**31, 2**53, 2**63
     c5 = dict(case, costs=scale(case["costs"], k))
     r = solve(c5)
     ctx.count("evaluations")
